@@ -8520,6 +8520,7 @@ pub fn recover_from_frames_and_commits(
     validate_recovery_frame_order(frames)?;
     let mut recovered = Vec::new();
     let mut last_committed_lsn = None;
+    let mut next_commit_lsn = frames.iter().map(|frame| frame.header.lsn).min();
     for commit in commits {
         let tx_frames: Vec<WalFrame> = frames
             .iter()
@@ -8531,6 +8532,10 @@ pub fn recover_from_frames_and_commits(
             .cloned()
             .collect();
         validate_transaction_frames(&tx_frames, commit)?;
+        if next_commit_lsn != Some(commit.first_lsn) {
+            return Err(WalValidationError::LsnContinuityMismatch.into());
+        }
+        next_commit_lsn = commit.last_lsn.checked_next();
         recovered.push(WalRecoveredTransaction {
             commit: commit.clone(),
             frames: tx_frames,
@@ -9868,6 +9873,9 @@ pub enum WalValidationError {
     /// Commit digest mismatch.
     #[error("WAL transaction commit digest mismatch")]
     CommitDigestMismatch,
+    /// Commit does not name the digest of the commit before it.
+    #[error("WAL transaction previous committed transaction digest mismatch")]
+    PreviousCommittedTransactionDigestMismatch,
     /// Affected frontier kind does not match transaction kind.
     #[error("WAL transaction affected frontier kind mismatch")]
     FrontierTransitionKindMismatch,
